@@ -706,8 +706,21 @@ Definition ex_aD (k : Z) : list dspec :=
   if Z.eqb k 0 then [("$"%char, S "a", 1%nat)] else if Z.eqb k 1 then [(">"%char, [], 1%nat)]
   else if Z.eqb k 6 then [("<"%char, S "x", 2%nat); ("!"%char, [], 0%nat)] else [].
 Definition ex_aT : rtree := RNode 0 [RNode 1 []; RNode 2 [RNode 3 [RNode 6 []]; RNode 4 [RNode 5 []]]].
+Fixpoint strs_eqb (l : list pyval) (m : list pystr) : bool :=
+  match l, m with
+  | [], [] => true
+  | VStr a :: l', b :: m' => str_eqb a b && strs_eqb l' m'
+  | _, _ => false
+  end.
+Lemma strs_eqb_eq : forall l m, strs_eqb l m = true -> l = map VStr m.
+Proof.
+  induction l as [|v l IH]; intros [|b m] H; try discriminate; [reflexivity| |]; cbn [strs_eqb] in H.
+  - destruct v; discriminate.
+  - destruct v; try discriminate. apply andb_prop in H as [H1 H2]. apply str_eqb_eq in H1. subst. cbn [map]. f_equal. now apply IH.
+Qed.
+(** [atom_ok], decided *)
 Definition atom_ok_b (dh : Z -> bool) (el : Z -> pystr) (D : Z -> list dspec) (n : nrec) : bool :=
-  pyval_eqb (match aget (S "element") (na n) with Some v => v | None => VNone end) (VStr (el (nk n)))
+  match aget (S "element") (na n) with Some (VStr e) => str_eqb e (el (nk n)) | _ => false end
   && match aget (S "charge") (na n) with None => true | Some (VInt 0) => true | _ => false end
   && match aget (S "hcount") (na n) with None => true | Some (VInt _) => true | _ => false end
   && match aget (S "aromatic") (na n) with None => true | Some (VBool false) => true | _ => false end
@@ -715,9 +728,24 @@ Definition atom_ok_b (dh : Z -> bool) (el : Z -> pystr) (D : Z -> list dspec) (n
   && dh (nk n)
   && match aget (S "bonding") (na n), D (nk n) with
      | None, [] => true
-     | Some v, (x :: xs) => pyval_eqb v (VList (map VStr (map d_stored (x :: xs))))
+     | Some (VList l), (x :: xs) => strs_eqb l (map d_stored (x :: xs))
      | _, _ => false
      end.
+Lemma atom_ok_dec dh el D n : atom_ok_b dh el D n = true -> atom_ok dh el D n.
+Proof.
+  unfold atom_ok_b, atom_ok. intros H. repeat (apply andb_prop in H; destruct H as [H ?]).
+  repeat split.
+  - destruct (aget (S "element") (na n)) as [[| | | |e| | |]|]; try discriminate H. apply str_eqb_eq in H. now subst e.
+  - destruct (aget (S "charge") (na n)) as [[| |z| | | | |]|]; try discriminate; [|now left]. destruct z; try discriminate. now right.
+  - destruct (aget (S "hcount") (na n)) as [[| |z| | | | |]|]; try discriminate; [right; eauto|now left].
+  - destruct (aget (S "aromatic") (na n)) as [[|[]| | | | | |]|]; try discriminate; [now right|now left].
+  - unfold ahas in *. destruct (aget (S "rs_isomer") (na n)); [discriminate|reflexivity].
+  - unfold ahas in *. destruct (aget (S "isotope") (na n)); [discriminate|reflexivity].
+  - unfold ahas in *. destruct (aget (S "class") (na n)); [discriminate|reflexivity].
+  - assumption.
+  - destruct (aget (S "bonding") (na n)) as [[| | | | |l| |]|], (D (nk n)) as [|x xs]; try discriminate; [|reflexivity].
+    f_equal. f_equal. now apply strs_eqb_eq.
+Qed.
 Example atom_tree_example :
   let fo : float_oracle := fun _ => None in
   let dh := fun _ : Z => true in
